@@ -368,24 +368,29 @@ def zip4 : List Int → List LenRes → List Int → List Int → List (Int × L
   | _, _, _, _ => []
 
 /-- payday predicate over the implementation's own values; `prev` = last (months, len) with months > 0 -/
-def paydayPred (now : Int) : List (Int × LenRes × Int × Int) → Option (Int × Int) → Option String
+def paydayPred (now : Int) (early : Bool := true) (checkBranch : Bool := false) :
+    List (Int × LenRes × Int × Int) → Option (Int × Int) → Option String
   | [], _ => none
   | (m, l, day, sec) :: rest, prev =>
     match l with
-    | .panic => if m < 0 then paydayPred now rest prev else some (predfail "C20_payday" s!"panic months={m}")
+    | .panic => if m < 0 then paydayPred now early checkBranch rest prev else some (predfail "C20_payday" s!"panic months={m}")
     | .ok len =>
       if m < 0 then some (predfail "C20_payday" s!"negative-months-accepted months={m}")
       else if m == 0 then
-        if len != 0 then some (predfail "C20_payday" "zero-months-nonzero") else paydayPred now rest prev
+        if len != 0 then some (predfail "C20_payday" "zero-months-nonzero") else paydayPred now early checkBranch rest prev
       else if !(day == BeginningOfMonth || day == MidMonth) || sec != PaymentHour * 3600 then
         some (predfail "C20_payday" s!"not-payday months={m} day={day} sec={sec}")
+      -- which pay day: a claim made before the 15th 14:00 UTC of its month is paid on a 15th, a later one on a 1st
+      -- (the claim's calendar position is taken in UTC, never in the host's time zone)
+      else if checkBranch && day != (if early then MidMonth else BeginningOfMonth) then
+        some (predfail "C20_payday" s!"wrong-payday-for-claim-date months={m} day={day} early={early}")
       else if len ≤ 0 then some (predfail "C20_payday" s!"not-after-now months={m} len={len}")
       else match prev with
         | some (pm, pl) =>
           if (pm ≤ m && pl > len) || (pm ≥ m && pl < len) || (pm < m && pl ≥ len) || (pm > m && pl ≤ len) then
             some (predfail "C20_payday" s!"not-monotone months={pm},{m} len={pl},{len}")
-          else paydayPred now rest (some (m, len))
-        | none => paydayPred now rest (some (m, len))
+          else paydayPred now early checkBranch rest (some (m, len))
+        | none => paydayPred now early checkBranch rest (some (m, len))
 
 def handleCal : Handler
   | [now, y, m, d, hour, months, lens, endDays, endSecs] =>
@@ -411,7 +416,9 @@ def handleCal : Handler
           | .panic => "ok")
       -- (2) the payday predicate on Go's own outputs
       verdict (allOk [cmp0, cmp]) <|
-      match paydayPred now rows none with
+      -- the claim's position in its month, from the UTC calendar fields of `now` computed HERE (not Go's)
+      let early := decide (c.d < MidMonth) || (c.d == MidMonth && decide (now % 86400 / 3600 < PaymentHour))
+      match paydayPred now early true rows none with
       | some r => r
       | none => "ok"
     | _, _, _, _, _, _, _, _, _ => badInput "parse"
